@@ -11,11 +11,12 @@
    The first conjunct is PROVED for every session (the strict form under the trace hypothesis [no_f13]:
    no force_quit and no nested loop entered while the stop flag is cleared — finding F13), together with
    [chk_C05_below]: what lies beneath an open modal frame stays in place.
-   The second conjunct is REFUTED (finding F16, two sessions below, reproduced event-for-event on the real
-   implementation): it stays monitored by the check only. *)
+   The second conjunct is REFUTED in general (finding F16, six sessions below, each reproduced event-for-event
+   on the real implementation) and PROVED under three conditions decided on the trace (section 3), each of
+   which is needed. *)
 From Coq Require Import ZArith NArith List Bool.
 From RecordUpdate Require Import RecordUpdate.
-From SL Require Import PyInt LoopSem ScreenSem ScreenMon proofs.C05Proofs proofs.C05Hyp.
+From SL Require Import PyInt LoopSem ScreenSem ScreenMon proofs.C05Proofs proofs.C05Hyp proofs.C05Input.
 From SL Require Monitors.
 Import ListNotations.
 
@@ -74,19 +75,65 @@ Example C05_strict_refuted :
   no_f13 (snd C05Ex.f13) = false.
 Proof. vm_compute. repeat split. Qed.
 
-(* ================================================================== 3. the T_INPUT clause is false (F16) *)
-(* cx1: the same screen twice on the stack, beneath and above a modal screen; cx2: force_quit and a second
-   App.run().  In both the stack discipline (chk_C04) is respected and input() is given to a screen
-   whose every stack entry is beneath an open modal frame. *)
+(* ================================================================== 3. the T_INPUT clause *)
+(* "no screen beneath it is given input": input() is never called on a screen all of whose stack entries lie
+   beneath an open modal frame, PROVIDED (conditions decided on the trace, proofs/C05Input.v; "unanswered"
+   = a request T_REQ [screen; args; handler] not yet answered by a typed line T_READY [handler; 1]):
+     no_stale_prompt         every prompt is issued on behalf of the screen of the TOP entry,
+     no_orphan_prompt        no entry of a screen is popped (closed, replaced, discarded) while a request of
+                             that screen is unanswered,
+     no_modal_during_prompt  no modal screen is pushed while a request is unanswered.
+   Behind it: while a request of screen S is unanswered, S has a stack entry with no modal entry above it.
+   Neither no_f13 nor any condition on force_quit is needed for this clause. *)
+Theorem C05_input_shield_partial :
+  forall specs specl typed quit run_empty fuel acts,
+    let t := rev (trace (snd (app_run_all specs specl typed quit run_empty fuel acts))) in
+    no_stale_prompt t = true -> no_orphan_prompt t = true -> no_modal_during_prompt t = true ->
+    sok chk_C05_input typed t = true.
+Proof. intros specs specl typed quit run_empty fuel acts. exact (proj2 (proj2 (proj2 (C05_input_session specs specl typed quit run_empty fuel acts)))). Qed.
+
+(* the whole acceptor of ScreenMon.v: chk_C05_partial under the three conditions, the strict chk_C05 under
+   no_f13 in addition *)
+Theorem C05_full_partial :
+  forall specs specl typed quit run_empty fuel acts,
+    let t := rev (trace (snd (app_run_all specs specl typed quit run_empty fuel acts))) in
+    no_stale_prompt t = true -> no_orphan_prompt t = true -> no_modal_during_prompt t = true ->
+    sok chk_C05_partial typed t = true /\ (no_f13 t = true -> sok chk_C05 typed t = true).
+Proof. exact C05_full_session. Qed.
+
+(* Without the conditions the clause is false (finding F16).  Six sessions; in each the stack discipline
+   (chk_C04) is respected, the shield of setup/refresh/show holds, and input() is given to a screen whose
+   every stack entry is beneath an open modal frame.  Each violates exactly ONE of the three conditions, so
+   each condition is needed:
+     cx1  the same screen twice on the stack, the upper (asking) entry closes          -> orphan
+     cx3  the asking entry closes, its screen is scheduled again at the bottom         -> orphan
+     cx5  _process_screen prompts for a screen whose entry was replaced in show_all    -> stale
+     cx2  force_quit, second App.run(), modal pushed from refresh while prompting      -> modal during prompt
+     cx4  re-prompt of a never drawn (unregistered) top screen, then a modal push      -> modal during prompt
+     cx6  the asking screen's only registration level is closed, then a modal push     -> modal during prompt *)
+Definition C05_row (ty : list (option str)) (x : list outcome * list event) :=
+  (no_stale_prompt (snd x), no_orphan_prompt (snd x), no_modal_during_prompt (snd x),
+   sok chk_C05_input ty (snd x), sok chk_C05_partial ty (snd x), sok chk_C05_shield_partial ty (snd x), sok chk_C04 ty (snd x)).
 Example C05_input_beneath_modal_refuted :
-  (sok chk_C05_partial C05Ex.cx1_typed (snd C05Ex.cx1) = false /\
-   sok chk_C05_input C05Ex.cx1_typed (snd C05Ex.cx1) = false /\
-   sok chk_C05_shield C05Ex.cx1_typed (snd C05Ex.cx1) = true /\
-   sok chk_C04 C05Ex.cx1_typed (snd C05Ex.cx1) = true /\ no_f13 (snd C05Ex.cx1) = true) /\
-  (sok chk_C05_partial C05Ex.cx2_typed (snd C05Ex.cx2) = false /\
-   sok chk_C05_input C05Ex.cx2_typed (snd C05Ex.cx2) = false /\
-   sok chk_C05_shield_partial C05Ex.cx2_typed (snd C05Ex.cx2) = true /\
-   sok chk_C04 C05Ex.cx2_typed (snd C05Ex.cx2) = true).
+  C05_row C05Ex.cx1_typed C05Ex.cx1     = (true, false, true, false, false, true, true) /\
+  C05_row C05InEx.cx3_typed C05InEx.cx3 = (true, false, true, false, false, true, true) /\
+  C05_row C05InEx.cx5_typed C05InEx.cx5 = (false, true, true, false, false, true, true) /\
+  C05_row C05Ex.cx2_typed C05Ex.cx2     = (true, true, false, false, false, true, true) /\
+  C05_row C05InEx.cx4_typed C05InEx.cx4 = (true, true, false, false, false, true, true) /\
+  C05_row C05InEx.cx6_typed C05InEx.cx6 = (true, true, false, false, false, true, true).
+Proof. vm_compute. repeat split. Qed.
+(* no_f13: cx2 contains a force_quit; the five others satisfy it, the F13 session of section 2 violates only it *)
+Example C05_conditions_independent :
+  no_f13 (snd C05Ex.cx1) = true /\ no_f13 (snd C05InEx.cx3) = true /\ no_f13 (snd C05InEx.cx4) = true /\
+  no_f13 (snd C05InEx.cx5) = true /\ no_f13 (snd C05InEx.cx6) = true /\ no_f13 (snd C05Ex.cx2) = false /\
+  C05_row C05Ex.f13_typed C05Ex.f13 = (true, true, true, true, true, true, true) /\ no_f13 (snd C05Ex.f13) = false /\
+  sok chk_C05 C05Ex.f13_typed (snd C05Ex.f13) = false.
+Proof. vm_compute. repeat split. Qed.
+(* the conditions are satisfiable together on non-trivial sessions (section 5: modal from input / depth 3) *)
+Example C05_conditions_satisfiable :
+  C05_row C05Ex.ex1_typed C05Ex.ex1 = (true, true, true, true, true, true, true) /\ no_f13 (snd C05Ex.ex1) = true /\
+  C05_row C05Ex.ex4_typed C05Ex.ex4 = (true, true, true, true, true, true, true) /\ no_f13 (snd C05Ex.ex4) = true /\
+  C05Ex.count_tag T_INPUT (snd C05Ex.ex4) = 9 /\ C05Ex.count_tag T_MODAL_RETURN (snd C05Ex.ex4) = 3.
 Proof. vm_compute. repeat split. Qed.
 
 (* ================================================================== 4. the caller resumes *)
@@ -159,6 +206,8 @@ Print Assumptions C05_modal_shield_partial.
 Print Assumptions C05_returns_only_after_close_partial.
 Print Assumptions C05_hypothesis_meaning.
 Print Assumptions C05_modulo_input.
+Print Assumptions C05_input_shield_partial.
+Print Assumptions C05_full_partial.
 Print Assumptions C05_caller_resumes.
 Print Assumptions C05_beneath_untouched.
 Print Assumptions C05_only_stack_primitives_move.
